@@ -87,9 +87,9 @@ def gen_stream(rng, cf_names, kind):
     return ST(ent, content)
 
 
-def gen_doc(rng, cf_names, feats_allowed, force=None):
+def gen_doc(rng, cf_names, feats_allowed, force=None, small=False):
     """(doc text, features)"""
-    nobj = rng.randint(2, 8)
+    nobj = rng.randint(1, 3) if small else rng.randint(2, 8)
     ids = rng.sample(range(1, 40), nobj + 1)
     gens = [rng.choice([0, 0, 0, 1, 7, 65535]) for _ in ids]
     objects = []
@@ -153,13 +153,16 @@ def CFS(pairs):
     return L('cfs', *[L(xb(n), f) for n, f in pairs])
 
 
-def gen_version(rng, kind):
+KEY_LENGTHS = [40, 48, 56, 64, 72, 80, 88, 96, 104, 112, 120, 128]
+
+
+def gen_version(rng, kind, kl=None):
     """-> (ver builder given (owner, user), pw limit, cf names, features)"""
     perms = gen_perms(rng)
     if kind == 'v1':
         return (lambda o, u: L('v1', xb(o), xb(u), str(perms))), 32, [], set()
     if kind == 'v2':
-        kl = rng.choice([40, 48, 56, 64, 72, 80, 88, 96, 104, 112, 120, 128])
+        kl = kl or rng.choice(KEY_LENGTHS)
         return (lambda o, u: L('v2', xb(o), xb(u), str(kl), str(perms))), 32, [], set()
     em = rng.random() < 0.6
     if kind in ('v4-eff', 'v4-dparr'):
@@ -194,13 +197,18 @@ def gen_version(rng, kind):
 ALL_FEATS = {'metadata', 'xref', 'crypt', 'crypt-noparms', 'dictstr', 'metadata-dict'}
 
 
+# 'noowner': NO owner password and a non-empty user password (Algorithm 3 a: the user password is used instead), one small
+# document for V 1, for V 2 with every key length 40, 48, .., 128, and for V 4 with an RC4 and with an AES crypt filter
+NOOWNER = [('v1', None)] + [('v2', kl) for kl in KEY_LENGTHS] + [('v4', None), ('v4', None)]
+
+
 def plan(tier):
     # '2b': revision 6 documents whose Algorithm 2.B runs end exactly on (or next to) the boundary of the exit test
     if tier == 'quick':
         return [('v1', 6), ('v2', 10), ('v4', 22), ('r5', 6), ('v5', 1), ('v4-eff', 1), ('v4-dparr', 3), ('direct', 2), ('len256', 2),
-                ('2b', 3)]
+                ('2b', 3), ('noowner', len(NOOWNER))]
     return [('v1', 150), ('v2', 400), ('v4', 700), ('r5', 200), ('v5', 40), ('v4-eff', 10), ('v4-dparr', 10), ('direct', 20),
-            ('len256', 20), ('2b', 24)]
+            ('len256', 20), ('2b', 24), ('noowner', 6 * len(NOOWNER))]
 
 
 CLASSES_2B = ['eq', 'eq', 'eq', 'below', 'above', 'eq64', 'r64', 'any']
@@ -250,17 +258,17 @@ def gen_cases(rng, tier):
             # refused with InvalidKeyLength); mostly revision 5, whose hash is cheap in the extracted specification
             vkind = rng.choice(['v1', 'v2', 'v4', 'r5']) if kind == 'direct' else \
                 (('v5' if tier != 'quick' and rng.random() < 0.2 else 'r5') if kind == 'len256' else
-                 ('v5' if kind == '2b' else kind))
-            mk, limit, cf_names, vfeats = gen_version(rng, vkind)
+                 ('v5' if kind == '2b' else (NOOWNER[j % len(NOOWNER)][0] if kind == 'noowner' else kind)))
+            mk, limit, cf_names, vfeats = gen_version(rng, vkind, NOOWNER[j % len(NOOWNER)][1] if kind == 'noowner' else None)
             r56 = vkind in ('r5', 'v5')
             # revision 5 (cheap hash): the first two documents have a user / an owner password of more than 127 bytes in
             # multi-byte characters; '2b' and the quick tier's revision 6 document: short passwords (a hash of a long one
             # costs 10 s in the extracted specification)
             force = ['user-straddle', 'owner-straddle'][j] if kind == 'r5' and j < 2 else \
-                ('short' if kind == '2b' and (tier == 'quick' or rng.random() < 0.7) else None)
+                ('short' if kind == '2b' and (tier == 'quick' or rng.random() < 0.7) else ('noowner' if kind == 'noowner' else None))
             pwset = pwaid.gen_pw_set(rng, limit, r56, force, maxlen=(50 if vkind == 'v5' and tier == 'quick' else None))
             sforce = {'v4-eff': 'embedded', 'v4-dparr': 'crypt-array'}.get(kind)
-            doc, feats = gen_doc(rng, cf_names, ALL_FEATS if sforce is None else set(), sforce)
+            doc, feats = gen_doc(rng, cf_names, ALL_FEATS if sforce is None else set(), sforce, small=(kind == 'noowner'))
             rnd = [rbytes(rng, 16), rbytes(rng, 16), rbytes(rng, 4)]
             ivs = [rbytes(rng, 16) for _ in range(90)]
             opts = {'v4-eff': [L('eff', xb(b'Other'))], 'direct': ['direct'],
@@ -312,6 +320,13 @@ def gen_cases(rng, tier):
             iso_enc[i] = r
         for i, r in zip(light, fl.result()):
             iso_enc[i] = r
+    # the other direction judged directly (revisions 2-4): the specification's O / U for the request and its Algorithm 6 / 7
+    # on every password against the dictionary lopdf wrote; the answer travels in the case line, the harness compares
+    r4 = [i for i, s in enumerate(specs) if s['vkind'] in ('v1', 'v2', 'v4') and impl_enc[i].startswith('(encdoc ')]
+    refs = vlib.run_lines(runner, [L('isoref', specs[i]['ver'], impl_enc[i][len('(encdoc '):-1],
+                                      L('pws', *[xb(p) for _, p, _ in specs[i]['pw']['pws']])) for i in r4], 1400, 8)
+    for i, r in zip(r4, refs):
+        specs[i]['isoref'] = r if r.startswith('(isoref ') else None
     cases = []
     for s, ie, me, iraw in zip(specs, impl_enc, iso_enc, impl_raw):
         if not (ie.startswith('(encdoc ') and me.startswith('(encdoc ')):
@@ -324,6 +339,8 @@ def gen_cases(rng, tier):
         if 'aimed=' in iraw[1] and not iraw[1].endswith('aimed=none'):
             feats.add('2b-lopdf-salts-on-boundary')
         tags = {'kind': s['kind'], 'nontrivial': True, 'feats': sorted(feats), 'no_owner': not s['pw']['has_owner']}
+        if s['vkind'] in ('v1', 'v2', 'v4'):
+            tags['isoref'] = s.get('isoref') is not None
         if s['kind'] == '2b':
             # one line per right password (user: three hashes, owner: two); thorough: also the re-encryption with lopdf's
             # salts (which the aid chose on the boundary as well) and a wrong password
@@ -341,9 +358,11 @@ def gen_cases(rng, tier):
         else:
             parts = [(pws, [])]
         for ps, fl in parts:
-            raw = [L('raw', *[xb(t) for _, _, t in ps])] if any(p != t for _, p, t in ps) else []
+            # (raw ..) is the seventh element whenever an (isoref ..) follows: both sides find them by position / by tag
+            raw = [L('raw', *[xb(t) for _, _, t in ps])] if any(p != t for _, p, t in ps) or s.get('isoref') else []
+            ref = [s['isoref']] if s.get('isoref') else []
             cases.append((L('case', s['doc'], s['ver'], isoenc, implenc,
-                            L('pws', *[L(k, xb(p)) for k, p, _ in ps]), L('flags', *fl), *raw), tags, cost_of(ps, fl, s['vkind'])))
+                            L('pws', *[L(k, xb(p)) for k, p, _ in ps]), L('flags', *fl), *raw, *ref), tags, cost_of(ps, fl, s['vkind'])))
     # the model runs the lines in 8 processes, line i in process i mod 8: the expensive lines (revision 6) first, so that
     # they spread -- the eight most expensive one per process, the cheapest of them where the next ones will be added
     heavy = sorted([c for c in cases if c[2] > 0], key=lambda c: -c[2])
@@ -382,7 +401,13 @@ SPEC = {
             'each document is encrypted by the extracted ISO specification (explicit randomness) and by lopdf; lopdf opens the '
             'former, the specification the latter, with every password; the specification re-encrypts with the random choices '
             'read back from lopdf\'s output and must reproduce it byte for byte (O, U, OE, UE, Perms, P, V, R, Length, CF, StmF, '
-            'StrF read with the standard\'s defaults; every object); non-trivial = every case',
+            'StrF read with the standard\'s defaults; every object); for revisions 2-4 the direction lopdf -> standard is also judged '
+            'directly: the extracted specification is asked (runner line isoref) for the O value of Algorithm 3 and the U value of '
+            'Algorithm 4 / 5 of the request and for the answer of its Algorithms 6 and 7 to every password against the dictionary '
+            'lopdf wrote; the harness fails the case when lopdf\'s O or U differ or when the standard authenticates anything but the '
+            'user password as user and the owner password -- the user password when there is none -- as owner; 15 (thorough 90) '
+            'small documents have NO owner password and a non-empty user password: V 1, V 2 with every key length 40..128, V 4; '
+            'non-trivial = every case',
     'extra_trusted': ['C06: Gallina MD5 / SHA-256/384/512 / AES-128/256 / RC4 (RFC 1321, FIPS 180-4, FIPS 197, RFC 6229, SP 800-38A '
                       'vectors as Examples) are the primitives of the specification; their correctness is by vectors and by the '
                       'differential runs against the md-5, sha2, aes crates, not by proof',
